@@ -257,6 +257,33 @@ func BuildTypeCtxByIndex(typeType *parser.TypeTypeContext, typeCtx *parser.Class
 
 // a local variable is known until the end of the block that declares it
 func (s *JavaFullListener) EnterBlock(ctx *parser.BlockContext) {
+	saveLocalVars()
+}
+
+func (s *JavaFullListener) ExitBlock(ctx *parser.BlockContext) {
+	restoreLocalVars()
+}
+
+// the variable of a for statement is a local variable until the end of the statement
+func (s *JavaFullListener) EnterStatement(ctx *parser.StatementContext) {
+	if ctx.FOR() != nil {
+		saveLocalVars()
+	}
+}
+
+func (s *JavaFullListener) ExitStatement(ctx *parser.StatementContext) {
+	if ctx.FOR() != nil {
+		restoreLocalVars()
+	}
+}
+
+func (s *JavaFullListener) EnterEnhancedForControl(ctx *parser.EnhancedForControlContext) {
+	if ctx.TypeType() != nil {
+		localVars[ctx.VariableDeclaratorId().GetText()] = ctx.TypeType().GetText()
+	}
+}
+
+func saveLocalVars() {
 	outer := make(map[string]string, len(localVars))
 	for name, typ := range localVars {
 		outer[name] = typ
@@ -264,7 +291,7 @@ func (s *JavaFullListener) EnterBlock(ctx *parser.BlockContext) {
 	localVarsOfOuterBlocks = append(localVarsOfOuterBlocks, outer)
 }
 
-func (s *JavaFullListener) ExitBlock(ctx *parser.BlockContext) {
+func restoreLocalVars() {
 	if len(localVarsOfOuterBlocks) == 0 {
 		return
 	}
